@@ -219,6 +219,12 @@ fn list_history(rng: &mut Rng, t: KT, nops: usize) -> Prog {
                 let r = model.get(i);
                 p.step("get", format!("print(list.get(l, {}))\nprint(list.get(l, {}) == {})", i, i, maybe_lit(r)), vec![maybe_show(r), "true".into()]);
             }
+            7 if rng.chance(1, 4) => {
+                // `set` at or past the end (the runtime guards with `#l > i`): ignored, the list keeps its length
+                let i = model.len() + rng.below(3);
+                let v = fresh(t, &mut counter);
+                p.step("set-at-or-past-the-end", format!("list.set(l, {}, {})\nprint(list.len(l))\nprint(l)\nprint(list.get(l, {}))", i, v.lit(), i), vec![model.len().to_string(), show_list(&model), "None nil".to_string()]);
+            }
             7 => {
                 if !model.is_empty() {
                     let i = rng.below(model.len());
@@ -688,7 +694,7 @@ impl Check for C18 {
         }
         Finish {
             level: "exploration",
-            rule: "operation histories (24/40 steps) over a global list (push prepend pop get set len map filter fold find contains last), dict (from_list/new update get remove len contains_key) or set (from_list/new add remove contains len) with element/key types rotating over int, str and (int, str), and Maybe/math helper calls (orDefault isJust isNone map andThen; min max abs clamp sign div floor). Every inserted value is unique (counter), keys come from a 5-element pool, observations are order-free (len, get/contains of touched keys, comparison with source-written Maybe.Just/None, non-commutative fold over lists only). Each printed observation is compared with a Vec / BTreeMap / BTreeSet / arithmetic model. Unspecified calls (negative indices, set past the end, div by <= 0 or of negatives) are not generated. Non-trivial: judged histories; distinct by source hash.".into(),
+            rule: "operation histories (24/40 steps) over a global list (push prepend pop get set len map filter fold find contains last), dict (from_list/new update get remove len contains_key) or set (from_list/new add remove contains len) with element/key types rotating over int, str and (int, str), and Maybe/math helper calls (orDefault isJust isNone map andThen; min max abs clamp sign div floor). Every inserted value is unique (counter), keys come from a 5-element pool, observations are order-free (len, get/contains of touched keys, comparison with source-written Maybe.Just/None, non-commutative fold over lists only). Each printed observation is compared with a Vec / BTreeMap / BTreeSet / arithmetic model. `set` at or past the end is ignored (the runtime's explicit bounds check). Unspecified calls (negative indices, div by <= 0 or of negatives) are not generated. Non-trivial: judged histories; distinct by source hash.".into(),
             extra: J::obj(),
             assumptions: vec!["luamon models Lua 5.3 tables (array part in index order for sequences); math helper results are observed through == so that int/float formatting does not matter".into()],
             exhaustive: false,
